@@ -83,3 +83,9 @@ claim("C17",
   "Histories of posts (few distinct contents, several owners, duplicate keys), deletes, valid and junk proofs, attestation/report flows driven to quorum, provider shutdown/re-init and reward blocks that remove provers and drop files. Invariant after every step and every block: by-content and by-owner records are the same set with byte-identical contents; AllFiles/AllFilesByOwner/AllFilesByMerkle agree; every prover list is duplicate-free, within MaxProofs, and each entry resolves via the Proof query and its built key to a record pointing back to the file.",
   "fewer than 10000 files per world; fork mode without ante handler.",
   "DESIGN.md section 4 C17")
+
+claim("C18",
+  "model-based stateful property test (rapid state machine): reference inbox / block-list model compared with all three notification queries after every step",
+  "Histories of create / delete / block-senders among 4 accounts with address, name, unknown and malformed targets, crafted From strings on delete, names registered and transferred mid-history, block times from 1 microsecond to hours. After every step AllNotificationsByAddress equals the model inbox of every account (full records), AllNotifications equals the union, Notification finds each entry, blocked senders are refused. The phantom-entry defect (block entries listed as notifications) is fixed in /repo (416464ce).",
+  "identity of a notification is (recipient, sender, block-time microseconds); name resolution is modelled from the rns Names records; fork mode without ante handler.",
+  "DESIGN.md section 4 C18")
